@@ -559,8 +559,53 @@ pub fn stream(rng: &mut Rng, max_len: usize) -> (Vec<u8>, u32) {
             break;
         }
         let start = s.len();
-        let k = rng.below(17);
+        let k = rng.below(18);
         match k {
+            17 => {
+                // another protocol's correctly checksummed frame whose payload holds an RTCM frame, a cut frame or
+                // stray preambles: u-blox UBX (b5 62, class, id, little-endian length, payload, 8-bit Fletcher) or
+                // an NMEA-style sentence with a correct *hh
+                let mut inner: Vec<u8> = Vec::new();
+                match rng.below(3) {
+                    0 => {
+                        let l = rng.usize_below(40);
+                        let p = rng.bytes(l);
+                        inner.extend(crc::frame(&p));
+                    }
+                    1 => {
+                        let l = rng.range(4, 40) as usize;
+                        let p = rng.bytes(l);
+                        let f = crc::frame(&p);
+                        let cut = rng.range(1, f.len() as i64 - 1) as usize;
+                        inner.extend_from_slice(&f[..cut]);
+                    }
+                    _ => {
+                        inner.extend_from_slice(&[0x11, 0xD3, 0x00, 0x22]);
+                    }
+                }
+                let pre = rng.usize_below(4);
+                let mut payload = rng.bytes(pre);
+                payload.extend(inner);
+                if rng.bool() {
+                    let mut u = vec![0xB5u8, 0x62, rng.u8(), rng.u8(), payload.len() as u8, (payload.len() >> 8) as u8];
+                    u.extend_from_slice(&payload);
+                    let (mut a, mut b) = (0u8, 0u8);
+                    for x in &u[2..] {
+                        a = a.wrapping_add(*x);
+                        b = b.wrapping_add(a);
+                    }
+                    u.push(a);
+                    u.push(b);
+                    s.extend(u);
+                } else {
+                    let mut t = b"$PRTCM,".to_vec();
+                    t.extend_from_slice(&payload);
+                    let cs = t[1..].iter().fold(0u8, |a, x| a ^ x);
+                    t.extend_from_slice(format!("*{:02X}\r\n", cs).as_bytes());
+                    s.extend(t);
+                }
+                tags |= 32768;
+            }
             16 => {
                 // bytes one bit away from the preamble (what a word-at-a-time search for 0xD3 may confuse with it)
                 const NEAR: [u8; 8] = [0xD2, 0xD1, 0xD7, 0xDB, 0xC3, 0xF3, 0x93, 0x53];
@@ -898,7 +943,7 @@ fn pick_len(rng: &mut Rng) -> usize {
     }
 }
 
-pub const STREAM_TAGS: [&str; 15] = [
+pub const STREAM_TAGS: [&str; 16] = [
     "valid_random_frame",
     "valid_typed_frame",
     "garbage",
@@ -914,4 +959,5 @@ pub const STREAM_TAGS: [&str; 15] = [
     "frame_with_zero_checksum_or_zero_register",
     "line_ends_and_foreign_protocol_bytes_between_frames",
     "bytes_one_bit_away_from_the_preamble",
+    "frame_inside_another_protocols_checksummed_frame",
 ];
